@@ -467,8 +467,8 @@ def run(ctx):
         c = json.loads(f.read_text())
         one_case(ctx, c["program"], label=f.name)
     second_pass(ctx)
-    c12_cfg.lookup_cases(ctx, SCRATCH, ctx.n(400, 6000))
-    for _ in range(ctx.n(160, 3000)):
+    c12_cfg.lookup_cases(ctx, SCRATCH, ctx.n(400, 2000))
+    for _ in range(ctx.n(160, 1000)):
         prog = gen_comp.gen_program(ctx.rng, allow_pow=False)
         one_case(ctx, prog)
 
